@@ -1246,9 +1246,29 @@ pub fn stream_body() -> Box<dyn PrepareCall> {
                 #[cfg(not(feature = "uring"))]
                 let file_len = meta.len();
 
-                // Never announce more than the file holds.
-                let end = range.map_or(file_len, |(_, end)| end.min(file_len));
-                let start = start.min(end);
+                // `end` is exclusive. Same rules as `CriticalRequestComponents::apply_to_response`,
+                // which is skipped for streams: clamp to the length, 416 if the start is outside.
+                let end = if let Some((_, end)) = range {
+                    if start >= file_len {
+                        return default_error_response(
+                            StatusCode::RANGE_NOT_SATISFIABLE,
+                            host,
+                            Some("Range start after end of body"),
+                        )
+                        .await;
+                    }
+                    let end = end.min(file_len);
+                    *response.status_mut() = StatusCode::PARTIAL_CONTENT;
+                    let content_range = format!("bytes {start}-{}/{file_len}", end - 1);
+                    response.headers_mut().insert(
+                        "content-range",
+                        // We know integers, "-", and "/" are OK!
+                        HeaderValue::from_str(&content_range).unwrap(),
+                    );
+                    end
+                } else {
+                    file_len
+                };
                 let len = end - start;
 
                 #[cfg(not(feature = "uring"))]
